@@ -374,6 +374,48 @@ fn g_lvalue(rng: &mut Rng) -> String {
     }
 }
 
+/// A statement that starts like a call or an assignment target: name(args), name.prop, name$(…), chained
+/// properties and parentheses, qualified names in every place — with and without arguments after it, with and
+/// without `= expr` (the parser has to decide between sub call and assignment on these shapes).
+fn g_name_shape(rng: &mut Rng) -> String {
+    let mut s = (*rng.pick(POOL)).to_owned();
+    if rng.chance(1, 3) {
+        s.push_str(*rng.pick(SUFFIX));
+    }
+    let links = 1 + rng.below(3);
+    for _ in 0..links {
+        match rng.below(5) {
+            0 | 1 => {
+                s.push('(');
+                s.push_str(&g_args(rng, 1));
+                s.push(')');
+            }
+            2 | 3 => {
+                s.push('.');
+                s.push_str(*rng.pick(&["Suit", "Value", "A", "B", "X"]));
+                if rng.chance(1, 4) {
+                    s.push_str(*rng.pick(SUFFIX));
+                }
+            }
+            _ => {
+                s.push_str(*rng.pick(&["$", "%", "()", ".", "..", "(", ")", "(1)(2)", ".1", "!.B"]));
+            }
+        }
+    }
+    s
+}
+
+fn g_call_shape(rng: &mut Rng) -> String {
+    let head = g_name_shape(rng);
+    match rng.below(6) {
+        0 | 1 => head,
+        2 => format!("{} {}", head, g_args(rng, 1)),
+        3 => format!("{} = {}", head, g_expr(rng, 1)),
+        4 => format!("{}{}", head, rng.pick(&[" 1", " 1, 2", "(1)", " (1), 2", " \"a\"", " -1", " .5", " = ", " ="])),
+        _ => format!("{} {}", rng.pick(&["PRINT", "INPUT", "X =", "IF", "FOR", "NEXT", "DIM", "CONST", "GOTO", "CALL"]), head),
+    }
+}
+
 fn g_params(rng: &mut Rng) -> String {
     let n = rng.below(3);
     (0..n)
@@ -410,7 +452,7 @@ fn g_stmt(rng: &mut Rng, out: &mut Vec<String>, depth: u32) {
         2 | 3 | 4 => out.push(format!("{} = {}", g_lvalue(rng), g_expr(rng, 2))),
         5 => out.push(format!("PRINT {}", g_args(rng, 2).replace(", ", *rng.pick(&["; ", ", "])))),
         6 => out.push(format!("{} {}", if rng.chance(1, 10) { g_name(rng) } else { (*rng.pick(POOL)).to_owned() }, g_args(rng, 1))),
-        7 => out.push(format!("CALL {}({})", g_name(rng), g_args(rng, 1))),
+        7 => out.push(g_call_shape(rng)),
         8 => out.push(format!("{} {}", rng.pick(&["GOTO", "GOSUB", "ON ERROR GOTO", "RESUME"]), rng.pick(&["L1", "L2", "A", "10", "L1", "0"]))),
         9 => out.push(format!("{}:", rng.pick(&["L1", "L2", "A", "10"]))),
         10 => out.push(format!("{} {}", rng.pick(&["INPUT", "LINE INPUT", "READ", "INPUT #1,", "LINE INPUT #1,"]), g_lvalue(rng))),
@@ -813,7 +855,7 @@ fn main() {
     let mut rep = Report::new(
         "C07",
         "inputs to parse_main_str + lint, each run in a watched worker process: random bytes decoded as UTF-8 (lossy), token \
-         soups over the lexer's alphabet, grammar-shaped programs over a small shared name pool (so that the checker is reached), byte- and token-level mutations (delete, duplicate, swap, truncate, splice) of a \
+         soups over the lexer's alphabet, grammar-shaped programs over a small shared name pool (so that the checker is reached), every string literal of the repository's Rust sources (repo-literal: programs and fragments, accepted and rejected), call/assignment-target shapes (name(args), name.prop, name$(..), chained properties and parentheses, with and without arguments), byte- and token-level mutations (delete, duplicate, swap, truncate, splice) of a \
          corpus (fixtures/*.BAS + built-in programs covering the statement repertoire), every prefix of every corpus program, \
          nesting/length ladders up to 300 (parentheses, IF, FOR, WHILE, DO, SELECT, operators chains …). class = the input \
          text (hash); the empty text is trivial. Row/col table: all texts of length <= 6 over {a, CR, LF} and random long \
@@ -858,8 +900,23 @@ fn main() {
         inputs.push(("corpus.crlf".into(), p.replace("\r\n", "\n").replace('\n', "\r\n")));
         inputs.push(("corpus.cr".into(), p.replace("\r\n", "\n").replace('\n', "\r")));
     }
+    // every string literal of the repository's Rust sources (whole programs and fragments, accepted and rejected)
+    let literals = rb_harness::corpus::candidate_texts();
+    rep.notes.push(format!("repo-literal: {} string literals of the repository's sources", literals.len()));
+    for t in &literals {
+        inputs.push(("repo-literal".into(), t.clone()));
+    }
+    for _ in 0..(if thorough { 20_000 } else { 1_500 }) {
+        inputs.push(("call-shape".into(), {
+            let mut t = g_call_shape(&mut rng);
+            if rng.chance(1, 2) {
+                t.push('\n');
+            }
+            t
+        }));
+    }
     let (n_bytes, n_soup, n_mut_b, n_mut_t, n_grammar) =
-        if thorough { (40_000, 100_000, 60_000, 60_000, 150_000) } else { (2_000, 4_000, 3_000, 3_000, 6_000) };
+        if thorough { (40_000, 100_000, 80_000, 80_000, 150_000) } else { (2_000, 3_500, 3_500, 3_500, 5_500) };
     for _ in 0..n_bytes {
         inputs.push(("random-bytes".into(), random_bytes(&mut rng)));
     }
@@ -871,16 +928,27 @@ fn main() {
     }
     let corpus_tokens: Vec<Vec<String>> = corpus.iter().map(|p| tokens_of(p)).collect();
     let corpus_chars: Vec<Vec<char>> = corpus.iter().map(|p| p.chars().collect()).collect();
+    // seeds of the mutations: the corpus + the repository's literals (a sample of 400 in the quick tier)
+    let mut seeds: Vec<String> = corpus.clone();
+    if thorough || literals.len() <= 400 {
+        seeds.extend(literals.iter().cloned());
+    } else {
+        for _ in 0..400 {
+            seeds.push(rng.pick(&literals).clone());
+        }
+    }
+    let seed_tokens: Vec<Vec<String>> = seeds.iter().map(|p| tokens_of(p)).collect();
+    let seed_chars: Vec<Vec<char>> = seeds.iter().map(|p| p.chars().collect()).collect();
     for _ in 0..n_mut_b {
-        let k = rng.below(corpus.len() as u64) as usize;
-        let o = rng.below(corpus.len() as u64) as usize;
-        let v = mutate_items(&mut rng, &corpus_chars[k], &corpus_chars[o]);
+        let k = rng.below(seeds.len() as u64) as usize;
+        let o = rng.below(seeds.len() as u64) as usize;
+        let v = mutate_items(&mut rng, &seed_chars[k], &seed_chars[o]);
         inputs.push(("mutation.char".into(), v.into_iter().collect()));
     }
     for _ in 0..n_mut_t {
-        let k = rng.below(corpus.len() as u64) as usize;
-        let o = rng.below(corpus.len() as u64) as usize;
-        let v = mutate_items(&mut rng, &corpus_tokens[k], &corpus_tokens[o]);
+        let k = rng.below(seeds.len() as u64) as usize;
+        let o = rng.below(seeds.len() as u64) as usize;
+        let v = mutate_items(&mut rng, &seed_tokens[k], &seed_tokens[o]);
         inputs.push(("mutation.token".into(), v.concat()));
     }
     // every prefix: character level for the built-in programs (all in thorough; every program, stride by tier),
@@ -1058,7 +1126,7 @@ fn main() {
         });
     }
     rep.sample(J::s(format!("{:?} -> {:?}", inputs[0].1, outcomes[0])));
-    for want in ["token-soup", "grammar-program", "mutation.token", "random-bytes", "prefix.char"] {
+    for want in ["token-soup", "repo-literal", "call-shape", "grammar-program", "mutation.token", "random-bytes", "prefix.char"] {
         if let Some(k) = inputs.iter().position(|(c, _)| c == want) {
             rep.sample(J::s(format!("[{}] {:?} -> {:?}", want, inputs[k].1, outcomes[k])));
         }
